@@ -486,6 +486,23 @@ void vp_ghost_check_starved(void) {
   }
 }
 
+// every kernel thread of the runtime except the caller's has gone through several idle iterations since its last switch, no wake-up
+// is pending and the run queues are empty: nothing but the calling fiber can run any more
+int vp_ghost_others_idle(void) {
+  const int me = vp_tid();
+  int i, mgrs = 0;
+  for (i = 0; i < VP_MAX_THREADS; ++i) {
+    if (!atomic_load(&g_thr[i].is_mgr)) continue;
+    ++mgrs;
+    if (i == me) continue;
+    if (atomic_load(&g_thr[i].idle_iters) < 3) return 0;
+  }
+  if (mgrs < vp_cfg.threads) return 0;
+  if (atomic_load(&g_pending_total) != 0) return 0;
+  if (fiber_verif_runqueue_total() != 0) return 0;
+  return 1;
+}
+
 int vp_ghost_quiescent(void) {
   const uint64_t e = atomic_load(&g_epoch);
   int i, mgrs = 0;
